@@ -67,13 +67,19 @@ type Recorder struct {
 	cancel        func()
 	overflow      bool
 	selfCancelled bool
+	// Budget overrides EventBudget when > 0 (volume phases)
+	Budget int
 }
 
 const EventBudget = 30000
 
 func (r *Recorder) ev(s string) {
 	r.mu.Lock()
-	if len(r.trace) < EventBudget {
+	budget := EventBudget
+	if r.Budget > 0 {
+		budget = r.Budget
+	}
+	if len(r.trace) < budget {
 		r.trace = append(r.trace, s)
 	} else if !r.overflow {
 		r.overflow = true
@@ -698,4 +704,42 @@ func HostCont(kind string, n int) interface{} {
 		return hostNamedString(strings.Repeat("x", n))
 	}
 	return nil
+}
+
+// ---------------------------------------------------------------------------
+// Sessions: several source texts executed one after another in ONE environment
+// (what a host does that keeps an interpreter alive), with an event budget and
+// a watchdog of their own. Used by the volume / history phases.
+
+type Session struct {
+	E   *env.Env
+	Rec *Recorder
+}
+
+// NewSession returns a core environment with the host functions bound and the given event budget per Exec.
+func NewSession(budget int) *Session {
+	e, rec := NewEnv()
+	rec.Budget = budget
+	return &Session{E: e, Rec: rec}
+}
+
+// Exec runs src in the session's environment; the returned trace holds the events of this call only.
+func (s *Session) Exec(src string, watchdog time.Duration) Real {
+	s.Rec.mu.Lock()
+	s.Rec.trace, s.Rec.gtrace, s.Rec.overflow = nil, nil, false
+	s.Rec.mu.Unlock()
+	ctx, cancel := context.WithTimeout(context.Background(), watchdog)
+	defer cancel()
+	s.Rec.cancel = cancel
+	c0 := cpuSeconds()
+	base := runtime.NumGoroutine()
+	s.Rec.Base = base
+	o := ank.ExecCtx(ctx, s.E, src)
+	settled := waitGoroutines(base)
+	real := finish(o, s.Rec, ctx)
+	real.Unsettled = !settled
+	if real.TimedOut {
+		real.CPUBurn = cpuSeconds() - c0
+	}
+	return real
 }
